@@ -118,6 +118,16 @@ def lp_verdicts(ctx: Ctx):
         ob_ = ctx.ob("C04-O12", o.rule, None, f"[{o.oid}] {o.construct}", o.ok, (o.detail + " - solve_milp prunes, stops or keeps a subtree open on this status") if not o.ok else "", rel=o.rel, fname=o.func)
         ob_.lineno = o.lineno
     ctx.floor("obligations on the simplex routines (from C03)", n, 20)
+    # ... and the LP is solved with the simplex's own tolerance: solve_milp's eps (1e-6, an integrality / feasibility
+    # tolerance) is not handed on.  As pivot tolerance it makes tableau entries of 1/(k1*k2) count as zero from
+    # k1*k2 = 1e6 on (UNBOUNDED for a bounded problem, an infeasible point as OPTIMAL: ledger row 69), and as phase-1
+    # tolerance it accepts an LP that is infeasible by 1e-4 (row 64)
+    sn = ctx.func(MOD, "_solve_node")
+    calls = [c for c in own_nodes(sn.node) if isinstance(c, ast.Call) and ast.unparse(c.func) == "solve_lp"]
+    ctx.floor("solve_lp calls in _solve_node", len(calls), 1)
+    for c in calls:
+        fwd = [k for k in c.keywords if k.arg == "eps"] + [a for a in c.args[3:] if isinstance(a, ast.Name) and a.id == "eps"]
+        ctx.ob("C04-O12", "R4 SIGN-UNIT", sn, "solve_lp runs with its own tolerance: solve_milp's eps is not passed on", not fwd, f"`{ast.unparse(c)[:80]}`: eps means 'how far from an integer / how far over a row' here and 'what counts as zero in the tableau' there", node=c)
 
 
 def run(ctx: Ctx):
@@ -772,7 +782,13 @@ def _v_phase1_infeasible_before_budget(tree):
     g.body[k[0]], g.body[k[0] + 1] = g.body[k[0] + 1], g.body[k[0]]
 
 
+def _v_eps_forwarded_to_lp(tree):
+    g = M.find_func(tree, "_solve_node")
+    M.replace_expr(g, lambda e: isinstance(e, ast.Call) and M.src_has(e.func, "solve_lp"), M.expr("solve_lp(c_red, A_red, b_red, minimize=minimize, eps=eps, max_iter=max_iter)"))
+
+
 VARIANTS = [
+    M.Variant("solve_milp hands its eps = 1e-6 to the simplex (original defect, ledger row 69)", ML, _v_eps_forwarded_to_lp, "C04-O12"),
     M.Variant("simplex phase 1 tests the residual infeasibility before the budget exit: a node LP that ran out of pivots is pruned as INFEASIBLE (seed C04-U)", "solvor/simplex.py", _v_phase1_infeasible_before_budget, "C04-O12"),
     M.Variant("LNS repair splices a remembered sub-MIP answer into the current solution (seed C04-S)", ML, _v_lns_repair_memo, "C04-O3"),
     M.Variant("_detect_binary reads set-packing rows as bounds on each member (seed C04-T)", ML, _v_detect_binary_packing_rows, "C04-O6"),
